@@ -119,7 +119,7 @@ func qdT(s string) *time.Time {
 	return &t
 }
 
-var qdDates = []string{"2019-05-01T00:00:00Z", "2020-01-01T00:00:00Z", "2021-07-15T12:30:00Z"}
+var qdDates = []string{"2019-05-01T00:00:00Z", "2020-01-01T00:00:00Z", "2021-07-15T12:30:00Z", "2019-12-31T19:00:00-05:00"} // the last one is the instant of the second
 
 func qdDataset() []*qdRow {
 	return []*qdRow{
@@ -130,6 +130,7 @@ func qdDataset() []*qdRow {
 		{Id: "r05", Name: "b", Alias: qdS("bob"), Age: qdI(-1), Score: qdF(10), Active: nil, Born: qdT(qdDates[1]), Tags: []string{"y"}, Places: []string{"pl2", "pl3"}, Meta: map[string]interface{}{"k": "", "n": int64(-1)}},
 		{Id: "r06", Name: "cy", Alias: qdS("x y"), Age: qdI(2), Score: nil, Active: qdB(false), Born: nil, Tags: []string{"x", "xy", "y"}},
 		{Id: "r07", Name: "", Alias: nil, Age: qdI(21), Score: qdF(2.5), Active: qdB(true), Born: qdT(qdDates[0]), Tags: []string{"ab"}},
+		{Id: "r09", Name: "ed", Alias: qdS("e"), Age: qdI(4), Score: qdF(4), Active: qdB(false), Born: qdT("2020-01-01T02:00:00+02:00"), Tags: []string{"x"}}, // the same instant as qdDates[1], another zone
 		{Id: "r08", Name: "di", Alias: qdS("D"), Age: qdI(3), Score: qdF(3), Active: qdB(true), Born: qdT(qdDates[2]), Tags: []string{"A", "x"}, Places: []string{"pl1", "pl2", "pl3"}, Meta: map[string]interface{}{"k": "v"}},
 	}
 }
@@ -310,7 +311,7 @@ func qdAtoms(rng *rand.Rand) qdAtom {
 		}
 		return qdAtom{fmt.Sprintf("born in [datetime(%s), datetime(%s)]", d1, d2), in}
 	case 10: // datetime between
-		lo, hi := *qdT(qdDates[0]), *qdT(qdDates[1+rng.Intn(2)])
+		lo, hi := *qdT(qdDates[0]), *qdT(qdDates[1+rng.Intn(3)])
 		return qdAtom{fmt.Sprintf("born between datetime(%s) and datetime(%s)", lo.Format(time.RFC3339), hi.Format(time.RFC3339)),
 			func(r *qdRow) bool { return r.Born != nil && !r.Born.Before(lo) && r.Born.Before(hi) }}
 	case 11, 12: // anyOf / allOf over the tag set
@@ -543,6 +544,7 @@ func TestVerifBoundedQueries(t *testing.T) {
 					want = append(want, r.Id)
 				}
 			}
+			sort.Strings(want)
 			got, count, err := store.QueryIds(tx, q.text)
 			if err != nil {
 				fails++
